@@ -44,6 +44,7 @@ DevNames == { "FilePathNoCheck",    \* serve_as_file_path joins the URI under th
               "NoRedirect",         \* plausible bug: a directory without trailing slash is answered with its index
               "HexLowerOnly",       \* plausible bug: only lower-case hex digits are accepted in an escape
               "StripAllPrefix",     \* plausible bug: serve_dir removes the route prefix as often as it occurs (trim_start_matches)
+              "StripAllDirectory",  \* plausible bug: directory_handler removes every leading repetition of the route prefix (trim_start_matches)
               "ExtFirstDot",        \* plausible bug: the extension is what follows the FIRST dot of the name
               "TrimNames",          \* plausible bug: the decoded path is trim()med (Unicode white space at both ends)
               "JoinAbsolute" }      \* plausible bug: serve_as_file_path joins with Path::join, an absolute uri path replaces the directory
@@ -229,7 +230,8 @@ Mime(e) == LET S == {i \in 1..Len(MimeTable) : MimeTable[i][1] = e} IN
 (***************************************************************************)
 \* An answer, as the harness observes it: status, content id of the body (0 = not a file of the
 \* world), Content-Type ("" = header absent), Location bytes, canary = bytes from outside the root.
-Answer(st, id, ct, loc, w) == [st |-> st, id |-> id, ct |-> ct, loc |-> loc, canary |-> id \in w.outside]
+\* (ctb = the media type of the Content-Type without parameters, lower case - what the harness projects for the judge)
+Answer(st, id, ct, loc, w) == [st |-> st, id |-> id, ct |-> ct, ctb |-> ct, loc |-> loc, canary |-> id \in w.outside]
 A404(w) == Answer(404, 0, "text/html", <<>>, w)
 Panic(w) == Answer(0, 0, "", <<>>, w)
 
@@ -302,7 +304,10 @@ CharsBeforeStar(m) == LET S == {i \in 1..Len(m) : m[i] = STAR}
                           n == IF S = {} THEN Len(m) ELSE (CHOOSE i \in S : \A j \in S : i <= j) - 1
                       IN Cardinality({i \in 1..n : IsLead(m[i])})
 DirHandlerStripD(dv, matches, uri) ==
-  IF "StripByBytes" \in dv THEN (IF CharsBeforeStar(matches) > Len(uri) THEN <<BAD>> ELSE Drop(uri, CharsBeforeStar(matches)))
+  IF "StripAllDirectory" \in dv
+  THEN LET S == {i \in 1..Len(matches) : matches[i] = STAR}
+           pre == IF S = {} THEN matches ELSE SubSeq(matches, 1, (CHOOSE i \in S : \A j \in S : i <= j) - 1) IN StripAll(pre, uri)
+  ELSE IF "StripByBytes" \in dv THEN (IF CharsBeforeStar(matches) > Len(uri) THEN <<BAD>> ELSE Drop(uri, CharsBeforeStar(matches)))
   ELSE DropChars(uri, CharsBeforeStar(matches))
 
 \* handlers.rs serve_as_file_path: the literal uri below the directory; File::open + read_to_end
@@ -409,7 +414,8 @@ HasStar(route) == route # <<>> /\ Last(route) = STAR
 Prefix(route) == IF HasStar(route) THEN SubSeq(route, 1, Len(route) - 1) ELSE route
 Expect(h, w, rel) == IF h = "file_path" THEN ExpectLiteral(w, rel) ELSE ExpectDecoding(w, rel)
 STATIC_NOSTAR == B("/static")
-RouteList == << B("/static/*"), B("/*"), <<SLASH, 100, 195, 188, STAR>> >>    \* the third is "/dü*": a two-byte character ends the prefix
+RouteList == << B("/static/*"), B("/*"), <<SLASH, 100, 195, 188, STAR>>, B("/s*") >>    \* the third is "/dü*": a two-byte character ends the prefix;
+                                                                                        \* the fourth an ASCII prefix without final slash (the harness uses all four)
 RouteSet == {RouteList[i] : i \in 1..RouteN}
 \* the uri on which handler h sees relative path rel under `route` (serve_as_file_path takes the whole uri)
 UriFor(h, route, rel) == IF h = "file_path" THEN <<SLASH>> \o rel ELSE Prefix(route) \o rel
@@ -485,9 +491,123 @@ ConfinedAndConformsAt(ws, rel) ==
         /\ ConfinedAnswer(w, a)
         /\ Conforms(IF tg[1] = "file_path" THEN xl ELSE xd, UriFor(tg[1], tg[2], rel), a)
 
+CleanName(nm) == ~HasSub(nm, DOTDOT) /\ ~Has(nm, COLON)
+\* 3e. Two-level judging.  Expect* / Conforms above is the strict reading (today's choices included: 404 for whatever
+\*     is not served, Location spelled exactly uri "/", the MIME table's own strings, `.`/empty segments and encoded
+\*     slashes resolved like the operating system does).  The STATEMENT of the property demands less; Demand* / JudgeOk
+\*     below is that statement, policy-free, and only it decides between "violation" and "held":
+\*       - never bytes from outside the root (the canary marker), whatever the request;
+\*       - a clean file requested by its path - the names joined by single slashes, every name spelled with URI-safe
+\*         characters and/or escapes and decoding ONCE to the name (literally, undecoded, for serve_as_file_path) - is
+\*         answered 200 with exactly its contents and, when its extension is in the table, a media type registered for
+\*         that extension (parameters such as a charset are ignored; the accepted aliases are listed in MimeAlts);
+\*       - a clean directory requested that way without trailing slash is answered 301 with a Location whose path is the
+\*         request path followed by "/" (an origin in front and the request's query behind are admitted);
+\*       - with one trailing slash (or the empty path: the root) it is answered with index.html, else index.htm, else 404.
+\*     Everything else the statement leaves open (which status refuses a dot-dot path, what a missing file, a `.` segment,
+\*     a doubled or encoded slash, a raw space, an unknown extension get): an answer that passes JudgeOk but not Conforms
+\*     is reported as SPEC-DRIFT, never as a violation.
+PCharRaw(b) == Unreserved(b) \/ b \in {33, 36, 38, 39, 40, 41, 42, 43, 44, 59, 61, 58, 64}       \* RFC 3986 pchar without `%`
+RECURSIVE WellSpelledFrom(_, _)
+WellSpelledFrom(s, i) ==
+  IF i > Len(s) THEN TRUE
+  ELSE IF s[i] = PCT THEN (IF i + 2 <= Len(s) THEN Hex(s[i + 1]) # BAD /\ Hex(s[i + 2]) # BAD /\ WellSpelledFrom(s, i + 3) ELSE FALSE)
+  ELSE PCharRaw(s[i]) /\ WellSpelledFrom(s, i + 1)
+WellSpelled(s) == s # <<>> /\ WellSpelledFrom(s, 1)
+\* media types accepted for an extension of the table: its own entry and the registered / customary aliases
+MimeAlts ==
+  << <<B("js"), {"application/javascript", "application/x-javascript"}>>, <<B("mjs"), {"application/javascript", "application/x-javascript"}>>,
+     <<B("ico"), {"image/x-icon"}>>, <<B("bmp"), {"image/x-ms-bmp"}>>, <<B("zip"), {"application/x-zip-compressed"}>>,
+     <<B("ttf"), {"application/x-font-ttf", "application/font-sfnt", "font/sfnt"}>>, <<B("otf"), {"application/x-font-opentype", "application/font-sfnt", "font/sfnt"}>>,
+     <<B("woff"), {"application/font-woff"}>>, <<B("woff2"), {"application/font-woff2"}>>, <<B("ogv"), {"application/ogg"}>>,
+     <<B("svg"), {"image/svg"}>>, <<B("json"), {"text/json"}>>, <<B("jpg"), {"image/jpg"}>>, <<B("jpeg"), {"image/jpg"}>> >>
+KnownExt(e) == \E i \in 1..Len(MimeTable) : MimeTable[i][1] = e
+AcceptedTypes(e) == {Mime(e)} \cup UNION {MimeAlts[i][2] : i \in {j \in 1..Len(MimeAlts) : MimeAlts[j][1] = e}}
+\* a demand: k = "f" (serve file id; x = its extension when the table knows it, else <<>> = type not constrained),
+\*           "r" (redirect), "n" (404, no file content), "-" (the statement is silent)
+NoDemand == [k |-> "-", id |-> 0, x |-> <<>>]
+FileDemand(n) == LET e == Ext(Last(n.p)) IN [k |-> "f", id |-> n.id, x |-> IF e.has /\ KnownExt(e.e) THEN e.e ELSE <<>>]
+IndexDemand(w, d) ==
+  LET ih == NodeAt(w, Append(d.p, INDEX_HTML))
+      im == NodeAt(w, Append(d.p, INDEX_HTM)) IN
+  IF ih.k = "f" THEN FileDemand(ih) ELSE IF im.k = "f" THEN FileDemand(im) ELSE [k |-> "n", id |-> 0, x |-> <<>>]
+PlainName(nm) == CleanName(nm) /\ ~Has(nm, NUL) /\ ~Has(nm, SLASH) /\ nm # <<DOT>> /\ nm # <<>>
+\* (two stages, like the handler model: the part that does not depend on the world is computed once per request)
+NoNames == [t |-> "none", names |-> <<>>, trailing |-> FALSE]
+DemandDecodingPrep(rel) ==
+  IF rel = <<>> THEN [t |-> "root", names |-> <<>>, trailing |-> TRUE]
+  ELSE LET segs == Split(rel)
+           trailing == Len(segs) >= 2 /\ Last(segs) = <<>>
+           body == IF trailing THEN SubSeq(segs, 1, Len(segs) - 1) ELSE segs IN
+       IF \E i \in 1..Len(body) : ~WellSpelled(body[i]) THEN NoNames
+       ELSE LET names == [i \in 1..Len(body) |-> PercentDecode(body[i])] IN
+            IF \E i \in 1..Len(names) : ~Utf8Ok(names[i]) \/ ~PlainName(names[i]) THEN NoNames
+            ELSE [t |-> "names", names |-> names, trailing |-> trailing]
+DemandOn(w, dp) ==
+  IF dp.t = "none" THEN NoDemand
+  ELSE IF dp.t = "root" THEN IndexDemand(w, NodeAt(w, w.root))
+  ELSE LET n == NodeAt(w, w.root \o dp.names) IN
+       IF n.k = "f" /\ ~dp.trailing THEN FileDemand(n)
+       ELSE IF n.k = "d" /\ ~dp.trailing THEN [k |-> "r", id |-> 0, x |-> <<>>]
+       ELSE IF n.k = "d" THEN IndexDemand(w, n)
+       ELSE NoDemand
+DemandDecoding(w, rel) == DemandOn(w, DemandDecodingPrep(rel))
+\* serve_as_file_path: the names literally, files only
+DemandLiteralPrep(rel) ==
+  LET segs == Split(rel) IN
+  IF rel = <<>> \/ \E i \in 1..Len(segs) : ~PlainName(segs[i]) THEN NoNames ELSE [t |-> "lit", names |-> segs, trailing |-> FALSE]
+DemandLiteralOn(w, lp) ==
+  IF lp.t = "none" THEN NoDemand
+  ELSE LET n == NodeAt(w, w.root \o lp.names) IN IF n.k = "f" THEN FileDemand(n) ELSE NoDemand
+DemandLiteral(w, rel) == DemandLiteralOn(w, DemandLiteralPrep(rel))
+\* Under a route whose literal prefix does not end in a slash (`/pub*`) the path of a file is the prefix, ONE slash, the
+\* names: the relative path then starts with that slash.  (The bare prefix itself - the root "without trailing slash"?
+\* - is left open.)
+DemandDecodingSPrep(rel) ==
+  IF rel = <<>> THEN NoNames
+  ELSE IF rel[1] = SLASH THEN DemandDecodingPrep(Tail(rel))
+  ELSE DemandDecodingPrep(rel)
+DemandDecodingS(w, rel) == DemandOn(w, DemandDecodingSPrep(rel))
+Slashless(route) == Prefix(route) = <<>> \/ Last(Prefix(route)) # SLASH
+Demand(h, w, route, rel) ==
+  IF h = "file_path" THEN DemandLiteral(w, rel)
+  ELSE IF Slashless(route) THEN DemandDecodingS(w, rel) ELSE DemandDecoding(w, rel)
+
+HTTP_ == B("http://")
+HTTPS_ == B("https://")
+StripOrigin(loc) ==
+  LET k == IF IsPrefix(HTTP_, loc) THEN Len(HTTP_) ELSE IF IsPrefix(HTTPS_, loc) THEN Len(HTTPS_) ELSE 0 IN
+  IF k = 0 THEN loc
+  ELSE IF \E j \in (k + 1)..Len(loc) : loc[j] = SLASH
+       THEN Drop(loc, (CHOOSE j \in (k + 1)..Len(loc) : loc[j] = SLASH /\ \A i \in (k + 1)..(j - 1) : loc[i] # SLASH) - 1)
+       ELSE <<>>
+LocOk(uri, q, loc) == LET l == StripOrigin(loc) IN l = uri \o <<SLASH>> \/ (q # <<>> /\ l = uri \o <<SLASH, 63>> \o q)
+CtJudge(x, ctb) == x = <<>> \/ ctb \in AcceptedTypes(x)
+\* g = an answer [st, id, ct, ctb, loc, canary]; q = the query string the request carried
+JudgeOk(dm, uri, q, g) ==
+  /\ ~g.canary
+  /\ IF dm.k = "f" THEN g.st = 200 /\ g.id = dm.id /\ CtJudge(dm.x, g.ctb)
+     ELSE IF dm.k = "r" THEN g.st = 301 /\ LocOk(uri, q, g.loc)
+     ELSE IF dm.k = "n" THEN g.st = 404 /\ g.id = 0
+     ELSE TRUE
+\* the handler model meets the statement (the strict reading implies the statement on the model)
+ModelJudgedAt(ws, rel) ==
+  LET fp == TryFindPrepD(Dev, rel)
+      lp == FilePathPrepD(Dev, <<SLASH>> \o rel)
+      pd == DemandDecodingPrep(rel)
+      ps == IF rel # <<>> /\ rel[1] # SLASH THEN pd ELSE DemandDecodingSPrep(rel)
+      pl == DemandLiteralPrep(rel) IN
+  \A wi \in DOMAIN ws :
+     LET w == ws[wi]
+         loc == TryFindOnD(Dev, w, fp)
+         dd == DemandOn(w, pd)
+         ds == DemandOn(w, ps)
+         dl == DemandLiteralOn(w, pl) IN
+     \A tg \in Targets : JudgeOk(IF tg[1] = "file_path" THEN dl ELSE IF Slashless(tg[2]) THEN ds ELSE dd,
+                                  UriFor(tg[1], tg[2], rel), <<>>, AnswerAt(w, tg, rel, loc, lp))
+
 \* 3d. The positive half and the redirect / index rule, per world (quantified over its nodes, not over requests)
 RelNames(w, n) == SubSeq(n.p, Len(w.root) + 1, Len(n.p))
-CleanName(nm) == ~HasSub(nm, DOTDOT) /\ ~Has(nm, COLON)
 CleanNode(w, n) == IsPrefix(w.root, n.p) /\ Len(n.p) > Len(w.root) /\ \A i \in 1..Len(RelNames(w, n)) : CleanName(RelNames(w, n)[i])
 \* spellings of a path under which a decoding handler must find it: percent-encoded where needed (the
 \* library's own PercentEncode applied to each name), every byte encoded (upper / lower case hex), and the
@@ -645,6 +765,7 @@ GuardSound     == GuardSoundAt(Worlds, Rel(path))
 SharedIsHandle == Len(path) <= 2 => SharedIsHandleAt(Worlds, Rel(path))
 ModelConforms  == ModelConformsAt(Worlds, Rel(path))
 ConfinedAndConforms == ConfinedAndConformsAt(Worlds, Rel(path))
+ModelJudged    == ModelJudgedAt(Worlds, Rel(path))
 \* evaluated in the initial state only (they quantify over the nodes of the worlds)
 Positive       == (path = <<>>) => \A wi \in WorldIx : PositiveHalf(Worlds[wi])
 RedirectIndex  == (path = <<>>) => \A wi \in WorldIx : RedirectIndexRule(Worlds[wi]) /\ NoWildcardRule(Worlds[wi])
